@@ -21,6 +21,10 @@ def pattern(n, pat):
         phase = int(pat.split(".p")[1]) if ".p" in pat else 0
         tri = bytes([0x55, 0x3C, xx])
         return bytes(tri[(i + phase) % 3] for i in range(n))
+    if pat == "tape":                  # the data is itself a complete, well-formed cassette image (a .CAS file stored inside a container)
+        from .ref import tape as _tape
+        inner = _tape.write([dict(name="INNER", type=2, dtype=0, load=0x1000, exec=0x1000, data=bytes(range(40)))], 16, 16, None, 4)
+        return (inner + bytes(n))[:n] if n >= len(inner) else inner[:n]
     if pat == "dir":                   # plants plausible directory entries / FAT bytes everywhere
         ent = b"FAKEFILEBIN\x02\x00\x05\x00\x10" + bytes(16)
         return bytes(ent[i % 32] for i in range(n))
